@@ -77,7 +77,7 @@ func c19R1(c *Ctx) {
 					ob.Ok("origin %s: the registered ego (Ego()/ptr or a fluent call on it)", o)
 					if class == "" || class == "fluent" {
 						class = "fluent"
-					} else {
+					} else if class != "bad" {
 						class = "mixed"
 					}
 				case roots == oRECV:
@@ -93,7 +93,7 @@ func c19R1(c *Ctx) {
 					ob.Ok("origin %s: not the receiver (fresh container, element or argument)", o)
 					if class == "" || class == "other" {
 						class = "other"
-					} else {
+					} else if class != "bad" {
 						class = "mixed"
 					}
 				}
@@ -156,8 +156,10 @@ func c19R2(c *Ctx) {
 				n++
 				ob := c.Ob("C19.R2", "ptr-store/"+a.FuncName(fn), e.Pos)
 				par, isParam := st.Val.(*ssa.Parameter)
-				if isParam && len(fn.Params) == 2 && par == fn.Params[1] && fa.X == fn.Params[0] && len(a.eff[fn]) == 1 {
-					ob.Ok("stores its only argument into the receiver's ptr and has no other effect")
+				if isParam && len(fn.Params) == 2 && par == fn.Params[1] && fa.X == fn.Params[0] && len(a.eff[fn]) == 1 && len(fn.Blocks) == 1 {
+					ob.Ok("unconditionally (single basic block) stores its only argument into the receiver's ptr and has no other effect")
+				} else if isParam && len(fn.Blocks) != 1 {
+					ob.Fail("registration of the ego is conditional (%d basic blocks): some Init(ptr) call may leave a previous ptr in place, so a second-level derived type is not registered", len(fn.Blocks))
 				} else {
 					ob.Fail("ptr of %s is written outside a pure registration method (value origin %s)", tn, e.Value)
 				}
